@@ -26,6 +26,7 @@ include!("../c14_queries.rs");
 include!("../c14_observed.rs");
 include!("../c14_clauses.rs");
 include!("../c14_frames.rs");
+include!("../c14_roomdef.rs");
 
 /// the largest single allocation requested since the counter was reset (frame stream)
 struct TrackingAlloc;
@@ -54,7 +55,7 @@ fn panics() -> usize { PANICS.load(Ordering::SeqCst) }
 fn last_panic() -> String { LAST_PANIC.lock().unwrap().clone() }
 
 // ------------------------------------------------------------------ instances
-pub struct Inst { pub app: GraphDatabaseService, pub path: PathBuf, pub vk: Vec<u8>, pub healthy: bool }
+pub struct Inst { pub app: GraphDatabaseService, pub path: PathBuf, pub vk: Vec<u8>, pub healthy: bool, pub km: [u8; 32], pub pk: [u8; 32], pub full_model: String }
 impl Inst {
     pub async fn start(model: &str) -> Inst {
         let n = INST_COUNTER.fetch_add(1, Ordering::SeqCst);
@@ -66,10 +67,13 @@ impl Inst {
         // connections are created rapidly, says the code): under machine load a start can panic.
         // Run it in its own task and retry, so that such a start does not take the harness down.
         let mut attempt = 0;
+        let (mut km, mut pk) = ([0u8; 32], [0u8; 32]);
         let (app, vk) = loop {
             attempt += 1;
             let (f, pth) = (full.clone(), path.clone());
-            let r = tokio::spawn(async move { GraphDatabaseService::start("c14", &f, &random32(), &random32(), pth, &Configuration::default(), EventService::new()).await }).await;
+            km = random32(); pk = random32();
+            let (k1, k2) = (km, pk);
+            let r = tokio::spawn(async move { GraphDatabaseService::start("c14", &f, &k1, &k2, pth, &Configuration::default(), EventService::new()).await }).await;
             match r {
                 Ok(Ok((app, vk, _))) => break (app, vk),
                 Ok(Err(e)) if attempt >= 4 => panic!("instance does not start with model {}: {}", full, e),
@@ -84,7 +88,7 @@ impl Inst {
             START_RETRIES.fetch_add(1, Ordering::SeqCst);
             tokio::time::sleep(Duration::from_millis(300)).await;
         }
-        Inst { app, path, vk, healthy: true }
+        Inst { app, path, vk, healthy: true, km, pk, full_model: full }
     }
     /// the fixed probe: a query through the database task and a reader thread (+ a write when `full`)
     pub async fn probe(&self, full: bool) -> bool {
@@ -97,6 +101,19 @@ impl Inst {
         let ok = matches!(r, Ok(Ok(ref s)) if s.contains("probe-row"));
         if !ok || !full { return ok; }
         call(self.app.mutate(r#"mutate { c14probe.Probe { name: "w" } }"#, None)).await == 0
+    }
+    /// stop the instance and start it again on the same folder with the same secrets: None when the
+    /// start fails, panics or does not answer the probe
+    pub async fn restart(self) -> Option<Inst> {
+        let Inst { app, path, km, pk, full_model, .. } = self;
+        drop(app);
+        tokio::time::sleep(Duration::from_millis(60)).await;
+        let (f, pth) = (full_model.clone(), path.clone());
+        let r = tokio::time::timeout(Duration::from_secs(20), tokio::spawn(async move { GraphDatabaseService::start("c14", &f, &km, &pk, pth, &Configuration::default(), EventService::new()).await })).await;
+        match r {
+            Ok(Ok(Ok((app, vk, _)))) => { let i = Inst { app, path, vk, healthy: true, km, pk, full_model }; if i.probe(true).await { Some(i) } else { let _ = std::fs::remove_dir_all(&i.path); None } }
+            _ => { let _ = std::fs::remove_dir_all(&path); None }
+        }
     }
     pub fn close(self) { let p = self.path.clone(); drop(self); let _ = std::fs::remove_dir_all(p); }
 }
@@ -578,6 +595,8 @@ async fn main() {
     // ---- frames from a peer against a real endpoint; rows with dates beyond the calendar
     frame_streams(&mut rng, &mut out, &mut stats).await;
     ingest_date_stream(&mut rng, &mut out, &mut stats).await;
+    // ---- room definitions received from a peer, each followed by a restart of the receiver
+    room_definition_stream(&mut rng, &mut out, &mut stats).await;
     // ---- streams without a model verdict (b, d ingestion, e)
     observed_streams(&mut rng, &mut out, &mut stats).await;
 
